@@ -22,6 +22,7 @@ import (
 	"math/big"
 	"math/rand"
 	"os"
+	"runtime/debug"
 	"sort"
 	"strings"
 	"time"
@@ -618,6 +619,9 @@ func runHistCase(o *Out, ci int, hc *histCase, nops int, distinct map[string]boo
 		defer func() {
 			if r := recover(); r != nil {
 				panicked = true
+				if os.Getenv("VERIF_STACK") != "" {
+					_ = os.WriteFile(os.Getenv("VERIF_STACK"), []byte(fmt.Sprintf("panic in %s: %v\n%s\n", what, r, debug.Stack())), 0o644)
+				}
 				violate("C16", "panic-in-operation", what, fmt.Sprintf("%s: %v", what, r))
 			}
 		}()
